@@ -563,6 +563,11 @@ def c17_rows(lrus):
         for v in reversed(vs or []):
             sv, se = guarded(lambda: shared.t.expand_prefix(v))
             row["shared"].append({"m": v, "vars": list(sv or []), "exc": se})
+        for v in (vs or [])[:2]:
+            tv = impl._as_text(v)
+            if isinstance(tv, str):      # the same question asked with a text argument
+                sv, se = guarded(lambda: shared.t.expand_prefix(tv))
+                row["shared"].append({"m": v, "vars": list(sv or []), "exc": se})
         rule = {"k": "subdomain"}
         if vs and len(vs) <= 4:
             for v in vs:
